@@ -179,6 +179,9 @@ def make_root(name):
                    value_spec=pg.typing.List(pg.typing.Dict([('x', pg.typing.Int())])))
   if name == 'dotted':
     return pg.List([pg.Dict({'a.b': pg.Dict(x=0), '0': pg.List([pg.Dict({'[1]': 1})])}), 1])
+  if name == 'emptykey':
+    # the empty string is a legal key: its path renders like the root's but is one level deeper
+    return pg.Dict({'': pg.Dict(x=0), 'a': pg.List([pg.Dict({'': 1})])})
   if name == 'smalld':
     return pg.Dict(p=pg.List([0]))
   if name == 'typedobj':
@@ -226,7 +229,7 @@ def make_root(name):
   raise ValueError(name)
 
 
-ROOT_NAMES = ('dict', 'list', 'listofdict', 'obj', 'tdict', 'tlist', 'dotted')
+ROOT_NAMES = ('dict', 'list', 'listofdict', 'obj', 'tdict', 'tlist', 'dotted', 'emptykey')
 
 
 def build_world(init):
